@@ -31,12 +31,12 @@ TIMEOUT = 900
 
 
 def cases(tier, seed):
-    forms = ["bare", "attr", "alias", "wrapped", "pkginit", "initroot", "chain", "pinned", "lambda", "factory", "xdeco", "nestedlocal", "prefix", "lrucache", "declared"]
+    forms = ["bare", "attr", "alias", "wrapped", "pkginit", "initroot", "chain", "pinned", "lambda", "factory", "xdeco", "nestedlocal", "prefix", "lrucache", "declared", "nowraps"]
     for form in forms:
         edges = all_edges(3, form)
         graphs = [(kinds, mask) for kinds in itertools.product(["memento", "plain"], repeat=2)
                   for mask in range(1 << len(edges))]
-        if tier == "quick" and form in ("lambda", "factory", "xdeco", "nestedlocal", "prefix", "lrucache", "declared"):  # quick: these forms without self-loops
+        if tier == "quick" and form in ("lambda", "factory", "xdeco", "nestedlocal", "prefix", "lrucache", "declared", "nowraps"):  # quick: these forms without self-loops
             loops = sum(1 << i for i, (u, v) in enumerate(edges) if u == v)
             graphs = [(kinds, mask) for kinds, mask in graphs if not mask & loops]
         for i in range(0, len(graphs), 64):
@@ -111,8 +111,8 @@ def render_small(pkg, n, kinds, edges, form):
                 decl = sorted({t for (s_, t) in edges if s_ == u and t > u and kinds[t] == "memento"})
                 deco = "(dependencies=[%s])" % ", ".join("n%d" % t for t in decl) if decl else ""
             L.append("@m.memento_function" + deco)
-        elif form == "wrapped":
-            L += ["def deco_n%d(fn):" % u, "    @functools.wraps(fn)", "    def wrapper(*args, **kw):",
+        elif form in ("wrapped", "nowraps"):  # (nowraps: the decorator's wrapper does not say what it wraps)
+            L += ["def deco_n%d(fn):" % u] + (["    @functools.wraps(fn)"] if form == "wrapped" else []) + ["    def wrapper(*args, **kw):",
                   "        return fn(*args, **kw)", "    return wrapper", "", "@deco_n%d" % u]
         if form == "xdeco":
             L.append("@deco")
@@ -380,6 +380,25 @@ def run_random(case, out, fail):
             u, t = rng.choice(cands)
             nodes[u]["cbdefault"] = t
             out["obs"]["programs_with_a_function_as_default_value"] += 1
+    if case["idx"] % 4 == 3:
+        # aimed: a function of the program that is called by its bare name goes by the name of a builtin (a memento
+        # function, or a plain helper in front of one)
+        nodes = prog["nodes"]
+        free = [b for b in progs.BUILTIN_NAMES if not any(nd["name"] == b for nd in nodes)]
+        cands = [t for t in range(1, len(nodes)) if nodes[t]["kind"] in ("memento", "plain") and nodes[t]["mod"] in ("a", "b")
+                 and nodes[t]["name"] not in progs.BUILTIN_NAMES and not nodes[t].get("prev")
+                 and (nodes[t]["kind"] == "memento" or any(nodes[j]["kind"] == "memento" for j in progs.reaches(prog, t, include_hidden=False)))
+                 and not any(al["target"] == t for al in prog["aliases"])]
+        if free and cands:
+            t = rng.choice(cands)
+            old_name, nodes[t]["name"] = nodes[t]["name"], rng.choice(free)
+            for nd in nodes:
+                if nd["nested"] and nd["nested"].get("param") == old_name:
+                    nd["nested"]["param"] = nodes[t]["name"]
+            users = [u for u in range(t) if nodes[u]["kind"] == "memento" and nodes[u]["mod"] == nodes[t]["mod"]]
+            if users and not any(c["t"] == t and c["form"] == "bare" for u in users for c in nodes[u]["calls"]):
+                nodes[rng.choice(users)]["calls"].append({"t": t, "form": "bare"})
+            out["obs"]["programs_with_a_builtin_named_function_called_by_bare_name"] += 1
     if case["idx"] % 5 == 2:
         # aimed: R (automatic version) calls V (explicit version), V reaches X through a hidden call (allowed: V is
         # pinned), and only afterwards R itself takes a hidden edge to X, which is outside R's static closure
